@@ -67,3 +67,48 @@ def register(w):
                        "fuel": 4, "properties": ["C12"]})
     register_lemma(w, {"name": "ds_head", "pred": "lem_ds_head", "induct": "node",
                        "uses": ["ds_head_list"], "fuel": 4, "properties": ["C12"]})
+
+
+_reg_find = register
+
+
+def register(w):
+    _reg_find(w)
+    OS = "func_adl/object_stream.py::ObjectStream"
+    ED = f"{F}::EventDataset"
+    C.register_class(w, {
+        "key": ED,
+        "base": None,
+        "base_key": OS,
+        "state": {"_q_ast": "py", "_item_type": "py"},
+        "property_of": {"query_ast": "_q_ast", "item_type": "_item_type"},
+        "properties": ["C11", "C12"],
+    })
+    for k, extra in ((f"{OS}.__init__", {}),
+                     (f"{ED}.super.__init__", {"source": f"{OS}.__init__", "method": True})):
+        C.register(w, dict({
+            "key": k,
+            "self": OS if not extra else ED,
+            "params": {"the_ast": "py", "item_type": "py"},
+            "raises": {},
+            "ensures": ["same(self._q_ast, the_ast)", "same(self._item_type, item_type)"],
+            "self_attr_is": {"_q_ast": "the_ast", "_item_type": "item_type"},
+            "ret": "none",
+            "modifies": ["self._q_ast", "self._item_type"],
+            "properties": ["C11", "C12"],
+        }, **extra))
+    # the root of every query: a NEW EventDataset() call node with its own (empty) argument list -
+    # no two datasets share any part of their root node (C11: streams on different datasets are
+    # independent, also for back ends that write arguments into their root node)
+    C.register(w, {
+        "key": f"{ED}.__init__",
+        "self": ED,
+        "params": {"item_type": "py"},
+        "raises": {},
+        "ensures": ["same(self._q_ast, ast.Call(ast.Name('EventDataset'), [], []))",
+                    "same(self._item_type, item_type)"],
+        "self_attr_fresh": {"_q_ast": "shallow"},
+        "ret": "none",
+        "inline": ["func_adl/util_ast.py::function_call"],
+        "properties": ["C11", "C12"],
+    })
